@@ -13,7 +13,7 @@ use proptest::strategy::Strategy;
 use serde_json::Value;
 use std::collections::BTreeSet;
 
-pub const RULE: &str = "proptest-generated in-memory workspaces biased to colliding names (pool of 3; same name in several conftests, imported modules, plugin and third-party files; override patterns; cycles; scope chains). The observable snapshot (go-to at every usage, references per definition, available fixtures per file, scope mismatches, full normalised cycle list with anchors, unused list) after analysing the files in path order is compared with the snapshot after 3 generated permutations; in a second sub-check small workspaces (<= 6 files) are compared under ALL their analysis orders (up to 720). Scan tier: the same kind of workspace widened by up to 40 extra test modules is materialised on disk and scanned by the real parallel scan in this process and in 5 child processes with RAYON_NUM_THREADS 1/2/3/5/8; snapshots and the sets of indexed files must agree, and every test module / conftest.py of the tree must be indexed. Non-trivial = some name has >=2 definitions (scan tier: and >=9 scanned files); distinct = distinct workspace specs.";
+pub const RULE: &str = "proptest-generated in-memory workspaces biased to colliding names (pool of 3; same name in several conftests, imported modules, plugin and third-party files; override patterns; cycles; scope chains). The observable snapshot (go-to at every usage, references per definition, available fixtures per file, scope mismatches, full normalised cycle list with anchors, unused list) after analysing the files in path order is compared with the snapshot after 3 generated permutations; in a second sub-check small workspaces (<= 6 files) are compared under ALL their analysis orders (up to 720). Scan tier: the same kind of workspace widened by up to 40 extra test modules is materialised on disk and scanned by the real parallel scan in this process and in 5 child processes with RAYON_NUM_THREADS 1/2/3/5/8; snapshots and the sets of indexed files must agree, and every test module / conftest.py of the tree must be indexed. Real-world tier: installed packages' test suites are scanned in place by child processes with 1, 3 and 8 workers; observations must be identical. Non-trivial = some name has >=2 definitions (scan tier: and >=9 scanned files); distinct = distinct workspace specs.";
 pub const ASSUMPTIONS: &[&str] = &[
     "the parallel scan affects the index only through the order in which per-file analyses append to the per-name vectors (interleavings inside one analysis are C09's business)",
     "undeclared-fixture findings are excluded (the statement does not list them; they depend on what was indexed at analysis time by design)",
@@ -352,6 +352,63 @@ pub fn check_scan(c: &ScanCase, info: &mut CaseInfo) -> Outcome {
     }
 }
 
+/// Real-world workspaces (the test suites of installed packages, scanned in place): the
+/// observations of child processes with 1, 3 and 8 workers must be identical. Without a model a
+/// difference is admitted only if every name it involves has several definitions in the index (the
+/// signature shared by the two recorded findings).
+pub fn check_corpus_scan(dir: &str, info: &mut CaseInfo) -> Outcome {
+    let exe = std::env::current_exe().unwrap_or_else(|_| std::path::PathBuf::from("/verif/target/release/vengine"));
+    let mut obs: Vec<(usize, Value)> = Vec::new();
+    for workers in [1usize, 3, 8] {
+        let Ok(out) = std::process::Command::new(&exe).args(["scan-snapshot", dir]).env("RAYON_NUM_THREADS", workers.to_string()).output() else { continue };
+        if !out.status.success() {
+            return Outcome::Fail(format!("scanning {} in a separate process with {} worker(s) ended with {:?}", dir, workers, out.status.code()));
+        }
+        let Ok(v) = serde_json::from_slice::<Value>(&out.stdout) else { return Outcome::Fail(format!("child with {} workers printed no snapshot for {}", workers, dir)) };
+        obs.push((workers, v));
+    }
+    if obs.len() < 2 {
+        return Outcome::Ok;
+    }
+    let files = obs[0].1["files"].as_array().map(|a| a.len()).unwrap_or(0);
+    info.classes.push(format!("corpus scan: {} files", if files < 10 { "<10" } else if files < 100 { "10-99" } else { ">=100" }));
+    if files >= 9 {
+        info.nontrivial = true;
+    }
+    let f0 = flatten_obs(&obs[0].1);
+    let mut defs_per_name: std::collections::BTreeMap<String, usize> = std::collections::BTreeMap::new();
+    for (sec, names, _) in &f0 {
+        if sec == "refs" {
+            *defs_per_name.entry(names[0].clone()).or_insert(0) += 1;
+        }
+    }
+    let mut known = false;
+    let mut detail = None;
+    for (w, o) in obs.iter().skip(1) {
+        info.checks += 1;
+        if *o == obs[0].1 {
+            continue;
+        }
+        let fo = flatten_obs(o);
+        for (sec, names, entry) in f0.symmetric_difference(&fo) {
+            let msg = format!("{}: scan with {} worker(s) vs scan with {} worker(s): `{}` answer differs: {}", dir, w, obs[0].0, sec, entry);
+            if sec != "files" && !names.is_empty() && names.iter().all(|n| defs_per_name.get(n).copied().unwrap_or(0) >= 2) {
+                known = true;
+                info.known_trigger = true;
+                detail.get_or_insert(msg);
+            } else {
+                return Outcome::Fail(msg);
+            }
+        }
+    }
+    if known {
+        info.fail_detail = detail;
+        Outcome::Known(vec![KF_PICK.to_string()])
+    } else {
+        Outcome::Ok
+    }
+}
+
 pub fn scan_case() -> impl Strategy<Value = ScanCase> {
     use proptest::collection::vec;
     (workspace(cfg()), vec((proptest::num::u8::ANY, crate::gen::items(&GenCfg { max_items: 2, ..cfg() }, crate::gen::FileRole::Test)), 0..=40)).prop_map(|(ws, extra)| ScanCase { ws, extra })
@@ -376,6 +433,8 @@ pub fn run(ctx: &Ctx) {
         |c, info| check_case(c, info),
     );
     ctx.run_prop_shrink("scan", ctx.tier.pick(120, 6_000), 8, 120, scan_case, |c, info| check_scan(c, info));
+    let dirs: Vec<String> = crate::props::c04::corpus_workspaces(ctx.tier.pick(2, 10_000) as usize).iter().map(|d| d.to_string_lossy().to_string()).collect();
+    ctx.run_enum("corpus-scan", dirs, 4, |d, info| check_corpus_scan(d, info));
 }
 
 pub fn judge(_ctx: &Ctx, sub: &str, case: &Value) -> Option<Outcome> {
@@ -384,6 +443,10 @@ pub fn judge(_ctx: &Ctx, sub: &str, case: &Value) -> Option<Outcome> {
         "perm" | "perm-all" => {
             let c: Case = from_case(case)?;
             Some(check_case(&c, &mut info))
+        }
+        "corpus-scan" => {
+            let d: String = from_case(case)?;
+            Some(check_corpus_scan(&d, &mut info))
         }
         "scan" => {
             let c: ScanCase = from_case(case)?;
